@@ -76,6 +76,10 @@ CHECKS = {
    technique="whole-node simulation per configuration: the real node (node.Node + aqua service, all four RPC servers, on-disk keystore) is started in a child process under each assignment of the opt-in variables and simulated clients call every method of every API object on every transport in seeded order; signatures are observed at the keystore entry points through a guarded hook; configuration grid enumerated completely, seeded mixtures afterwards",
    text="One case = one deployment in its own child process (the opt-in variables are read once at start-up): keystore with an unlocked and a locked account whose keys the harness also holds, one pending transaction per account in the pool, in-proc + IPC + HTTP + WS endpoints (module whitelists naming every namespace, or default, or WSExposeAll; optionally stopped and restarted through admin_stopRPC/startRPC/stopWS/startWS first). Clients first issue the well-known signing calls in 4 account/passphrase roles on each transport, then sweep every exported method of every API object the node reports (by reflection, so renamed or newly exposed methods are called too) with arguments synthesised from the Go signatures that name the keystore accounts, passphrases and the pending transactions. Oracle: a signature observed during a call on transport T is a violation unless T's variable or UNSAFE_RPC_SIGNING is set to a truthy value; a signature outside any call is a violation; on an opted-in transport personal_sign / aqua_sign / aqua_signTransaction / personal_signTransaction must actually sign. The first 64 cases enumerate all 32 set/unset assignments (and again with explicit negative spellings and restarts).",
    note="No fault or schedule dimension: the property quantifies over configurations and inputs, calls are sequential on real loopback sockets outside a synctest bubble (the only nondeterminism, port choice, is retried). Not deployed: the clique development chain, where block sealing signs by design once mining is on. admin_shutdown is not called. Trusted: harness, hook placement (after key lookup/decryption, before the ECDSA operation)."),
+ "C20": dict(engine="storesim", category="fault_enumeration", design_ref="§3 C20",
+   technique="stored-byte fault enumeration over simulated key files: per seeded (key, passphrase, form) every single-byte substitution, deletion and truncation of the stored file and every passphrase at edit distance one is applied and the real DecryptKey / KeyStore (Unlock, Export, Import, Update, sign-and-recover) is run on the result; crypto/rand seeded per run; independent encoder for the read-only forms",
+   text="Files in six forms (the repository's EncryptKey; scrypt, pbkdf2 and version-1/AES-CBC files from an independent encoder written from the format description; the plaintext store for the 32-byte padding round trip), keys with up to 20 leading zero bytes, passphrases empty / long / non-ASCII / with control characters. For each file: round trip (identical key and address; after Unlock a signature recovers to the address; Export -> Import into a second store -> Update keeps the key and retires the old passphrase); every near-miss passphrase must fail; every byte position of the file (member names and structure included) is substituted by up to 12 characters, deleted, and the file truncated there: the outcome must be an error or the original key - a different key, a different account address, a nil key without error or a panic is a violation. KeyStore-level runs rewrite the stored file under the manager and alter exported files before Import. Passphrases differing only in trailing NUL bytes are a recorded finding of the format (HMAC key padding).",
+   note="Enumeration per file is complete at stride 1 (small cost parameters) and strided for the standard light parameters and the KeyStore-level runs; keys and passphrases are sampled. Sequential, real temporary directory, outside a bubble (no timing clause in the statement). Tampering of the unencrypted plaintext store is out of the statement's scope and not judged. Trusted: harness, independent encoder (validated by the round trip through the real reader), x/crypto primitives."),
 }
 
 def main():
